@@ -170,6 +170,9 @@ HARNESS_FILES = {
     "execs": {
         "internal/dag/scheduler/zz_verif_hooks.go": "go/hooks/dagscheduler_hooks_verif.go",
     },
+    "retrycmd": {
+        "cmd/zz_verif_hooks.go": "go/hooks/cmd_hooks_verif.go",
+    },
 }
 
 
